@@ -106,6 +106,28 @@ def generate(repo):
         items["cleanup_timeouts logs the abort"] = "translated"
     except Exception as ex:
         items["cleanup_timeouts logs the abort"] = "miss:%s" % ex
+    committing_kept = False
+    try:
+        _, ab = find_fn(dtx, "abort", after=r"impl\s+DistributedTxCoordinator\b")
+        m = re.search(r"if\s+from_phase\s*==\s*TxPhase::Committing\s*\{(.*?)\n        \}", ab, re.S)
+        refuse = bool(m) and "return Err" in m.group(1) and ab.find("log_wal_entry") > m.end()
+        _, ct = find_fn(dtx, "cleanup_timeouts", after=r"impl\s+DistributedTxCoordinator\b")
+        skip = bool(re.search(r"filter\(\|\(_,\s*tx\)\|\s*tx\.is_timed_out\(\)\s*&&\s*tx\.phase\s*!=\s*TxPhase::Committing\s*\)", ct))
+        committing_kept = refuse and skip
+        items["abort refuses / the sweep skips a Committing transaction"] = "translated"
+    except Exception as ex:
+        items["abort refuses / the sweep skips a Committing transaction"] = "miss:%s" % ex
+    drops_done = False
+    try:
+        _, rb = find_fn(dtx, "recover_from_wal", after=r"impl\s+DistributedTxCoordinator\b")
+        m1 = re.search(r"for\s+tx_id\s+in\s+&recovery_state\.completed_txs\s*\{\s*pending\.remove\(tx_id\);", rb)
+        m2 = re.search(r"for\s+tx_id\s+in\s+&recovery_state\.completed_txs\s*\{\s*self\.lock_manager\.release\(\*tx_id\);", rb)
+        no_clear = "pending.clear()" not in rb
+        _, fe = find_fn(wal, "from_entries", after=r"impl\s+TxRecoveryState\b")
+        drops_done = bool(m1) and bool(m2) and no_clear and "state.completed_txs" in fe
+        items["recover_from_wal drops completed transactions and keeps the others"] = "translated"
+    except Exception as ex:
+        items["recover_from_wal drops completed transactions and keeps the others"] = "miss:%s" % ex
     phase_plain = complete_plain = False
     try:
         _, body = find_fn(wal, "scan_entries", after=r"impl\s+TxRecoveryState\b")
@@ -139,10 +161,14 @@ def generate(repo):
     )
     text += ("(* cleanup_timeouts: the timeout abort is logged (phase change, completion) before it takes effect *)\n"
              "Definition gen_timeout_abort_logged : bool := %s.\n"
+             "(* abort() refuses a Committing transaction before it logs anything; cleanup_timeouts() leaves it alone *)\n"
+             "Definition gen_committing_kept : bool := COMMITTING_KEPT.\n"
+             "(* recover_from_wal: transactions the log completed leave the pending table and lose their locks; the table is not cleared *)\n"
+             "Definition gen_recovery_drops_completed : bool := DROPS_DONE.\n"
              "(* scan_entries: the PhaseChange arm moves the phase of a transaction in progress unconditionally *)\n"
              "Definition gen_scan_phase_plain : bool := %s.\n"
              "(* scan_entries: the TxComplete arm removes the transaction whatever the outcome / scanned phase *)\n"
-             "Definition gen_scan_complete_plain : bool := %s.\n" % (_b(timeout_logged), _b(phase_plain), _b(complete_plain)))
+             "Definition gen_scan_complete_plain : bool := %s.\n" % (_b(timeout_logged), _b(phase_plain), _b(complete_plain))).replace("COMMITTING_KEPT", _b(committing_kept)).replace("DROPS_DONE", _b(drops_done))
     text += ("(* TxWal::complete_prefix_len: a record length above this bound is treated as a torn tail (None = no bound) *)\n"
              "Definition gen_tx_scan_cap : option N := %s.\n" % cap)
     return text, items
